@@ -590,7 +590,7 @@ def run_coq(layer_import, ty, fn_bad, fn_cls, terms, d, stem, per_shard):
         blocks = vflib.parse_eval_outputs(out)
         for (i, subs) in vflib.parse_nat_pairs(blocks[0] if blocks else ""):
             mism[k * per_shard + i] = subs
-        rowsb = re.findall(r"\[((?:true|false)(?:;\s*(?:true|false))*)\]", blocks[1] if len(blocks) > 1 else "")
+        rowsb = re.findall(r"\[\s*((?:true|false)(?:;\s*(?:true|false))*)\s*\]", blocks[1] if len(blocks) > 1 else "")
         for i, rb in enumerate(rowsb):
             classes[k * per_shard + i] = [x == "true" for x in re.findall(r"true|false", rb)]
     return mism, classes, errors
@@ -653,24 +653,40 @@ def read_tree(root):
     return out
 
 
+def canon(data):
+    """identity of an entity rendering: the names of a `from datetime import ..` line are a HashSet iteration in the
+    Python exporters (DESIGN D5, judged by C18 and by O-C20 on raw bytes); order-free, so sorted for the comparison"""
+    return re.sub(rb"^from datetime import (.*)$",
+                  lambda m: b"from datetime import " + b", ".join(sorted(m.group(1).split(b", "))), data, flags=re.M)
+
+
+def split_decls(data):
+    """(text without its trailing `pub mod x;` lines, [x..])"""
+    try:
+        lines = data.decode().splitlines(keepends=True)
+    except UnicodeDecodeError:
+        return data, []
+    decls = []
+    while lines and (DECL.match(lines[-1].strip()) or (decls and not lines[-1].strip())):
+        l = lines.pop().strip()
+        if l:
+            decls.insert(0, DECL.match(l).group(1))
+    return "".join(lines).encode(), decls
+
+
+def entity_key(data):
+    return canon(split_decls(data)[0]).rstrip(b"\n")
+
+
 def content_term(data, entities):
     """abstract content of a file: entity rendering / `pub mod x;` lines / opaque"""
-    if data in entities:
-        return glist(["(LEntity %s)" % gs(entities[data])])
-    try:
-        txt = data.decode()
-    except UnicodeDecodeError:
-        txt = None
-    if txt is not None:
-        lines = [l.strip() for l in txt.splitlines()]
-        if all(DECL.match(l) for l in lines if l) :
-            return glist("(LDecl %s)" % gs(DECL.match(l).group(1)) for l in lines if l)
-        # an entity followed by declarations (the output file itself is called mod.rs)
-        for ent, name in entities.items():
-            if data.startswith(ent):
-                rest = [l.strip() for l in data[len(ent):].decode(errors="replace").splitlines() if l.strip()]
-                if rest and all(DECL.match(l) for l in rest):
-                    return glist(["(LEntity %s)" % gs(name)] + ["(LDecl %s)" % gs(DECL.match(l).group(1)) for l in rest])
+    core, decls = split_decls(data)
+    gd = ["(LDecl %s)" % gs(x) for x in decls]
+    if not core.strip():
+        return glist(gd)
+    k = canon(core).rstrip(b"\n")
+    if k in entities:
+        return glist(["(LEntity %s)" % gs(entities[k])] + gd)
     return glist(["(LOther %s)" % gs(hashlib.sha1(data).hexdigest()[:12])])
 
 
@@ -715,10 +731,16 @@ def export_step(hcli, pdir, cfg, orm, export_arg, plant, tag):
     rcf, outf, errf = run_cmd(["export", "--orm", orm, "--export-dir", fresh_rel], pdir)
     fresh = read_tree(fresh_root)
     entities = {}
+    by_path = {}
     for name, p in re.findall(r"^Exported (.*) -> (.*)$", outf, flags=re.M):
+        by_path.setdefault(p, []).append(name)
+    for p, names in by_path.items():
         fp = os.path.join(pdir, p)
         if os.path.isfile(fp):
-            entities.setdefault(open(fp, "rb").read(), name)
+            data = open(fp, "rb").read()
+            # two models on one output path: the file holds one of them, say which by the table name it carries
+            hit = [n for n in names if ('"%s"' % n).encode() in data]
+            entities.setdefault(entity_key(data), (hit or names)[-1])
     # repeat (idempotence)
     rc2, out2, err2 = run_cmd(args, pdir)
     after2 = read_tree(root)
@@ -750,12 +772,14 @@ def oracle_c20(r):
         extra = sorted(set(gen_after) - set(gen_fresh))
         miss = sorted(set(gen_fresh) - set(gen_after))
         diff = sorted(p for p in gen_after if p in gen_fresh and gen_after[p] != gen_fresh[p])
-        fails.append(("export_canonical", 1, "after export: stale %s missing %s different %s vs. an export into an empty directory" % (
+        only_order = not extra and not miss and all(canon(gen_after[p]) == canon(gen_fresh[p]) for p in diff)
+        fails.append(("export_canonical", 2 if only_order else 1, "after export: stale %s missing %s different %s vs. an export into an empty directory" % (
             ["/".join(p) for p in extra][:3], ["/".join(p) for p in miss][:3], ["/".join(p) for p in diff][:3])))
     if r["rc2"] == 0:
         ch = sorted(p for p in set(r["after"]) | set(r["after2"]) if r["after"].get(p, b"?") != r["after2"].get(p, b"?"))
         if ch:
-            fails.append(("export_idempotent", 1, "second export changed %s" % ["/".join(p) for p in ch][:3]))
+            only_order = all(r["after"].get(p) is not None and r["after2"].get(p) is not None and canon(r["after"][p]) == canon(r["after2"][p]) for p in ch)
+            fails.append(("export_idempotent", 2 if only_order else 1, "second export changed %s" % ["/".join(p) for p in ch][:3]))
     outs = [os.path.relpath(os.path.join(r["pdir"], p), r["root"]) for _, p in r["exported"]]
     if len(set(outs)) != r["n_models"] or any(os.path.basename(p) == "mod" + ext for p in outs):
         fails.append(("one_entity_per_model", 1, "%d models, %d distinct entity files %s" % (r["n_models"], len(set(outs)), sorted(set(outs))[:4])))
